@@ -21,6 +21,11 @@ pub fn gen_cfg(tier: Tier) -> GenCfg {
 }
 
 pub fn spec_for(seed: u64, index: u64, tier: Tier) -> SysSpec {
+    if index >= c02::PROBE_BASE {
+        // combinational operator probes of C02 (one 1-bit state): a wrong encoding of an operator makes pdr
+        // report a failure on a safe probe
+        return c02::probe_spec(index - c02::PROBE_BASE).expect("probe index out of range");
+    }
     sysgen::generate(seed, "C10", index, &gen_cfg(tier))
 }
 
@@ -77,7 +82,12 @@ fn check_system(rep: &mut Report, seed: u64, index: u64, solver_seed: u64, tier:
     };
     rep.count("programs", 1);
     *rep.counters.entry(format!("expected_{}", if matches!(expect, Verdict::Fail(_)) { "fail" } else { "success" })).or_insert(0) += 1;
-    for cfg in configs(tier) {
+    let probe = spec.pattern == "operator-probe";
+    for (ci, cfg) in configs(tier).into_iter().enumerate() {
+        // operator probes: z3 with and without generalisation; cvc5 on every fourth
+        if probe && !(ci < 2 || (ci == 4 && index % 8 == 0)) {
+            continue;
+        }
         // quick tier: the cvc5 configurations on every other system
         if tier == Tier::Quick && cfg.profile.solver == "cvc5" && index % 2 == 1 {
             continue;
@@ -153,6 +163,14 @@ pub fn run(tier: Tier, seed: u64, replay: Option<serde_json::Value>) -> i32 {
     let n = tier.pick(220u64, 3000u64);
     let mut indices: Vec<u64> = (0..n).collect();
     let mut solver_seeds: Vec<u64> = tier.pick(vec![1], vec![1, 2, 3]);
+    for pi in 0..c02::probe_count() {
+        if pi % 2 == 0 || pi % 8 == 1 {
+            indices.push(c02::PROBE_BASE + 2000 + pi);
+            if tier == Tier::Thorough {
+                indices.push(c02::PROBE_BASE + 3000 + pi);
+            }
+        }
+    }
     if let Some(r) = &replay {
         rep.write_files = false;
         indices = r["replay"]["system"]["index"].as_u64().map(|i| vec![i]).unwrap_or_default();
@@ -186,7 +204,7 @@ pub fn run(tier: Tier, seed: u64, replay: Option<serde_json::Value>) -> i32 {
     }
     live::kill_stray_solvers(0.0);
     let _ = Answer::Sat;
-    rep.extra.insert("bounds".into(), json!({"generated_systems": n, "state_bits_max": gen_cfg(tier).max_state_bits, "inputs": "0..2", "patterns": sysgen::PATTERNS,
+    rep.extra.insert("bounds".into(), json!({"generated_systems": n, "operator_probes": "combinational form of the probes of C02 (complete function tables, one 1-bit state)", "state_bits_max": gen_cfg(tier).max_state_bits, "inputs": "0..2", "patterns": sysgen::PATTERNS,
         "configurations": configs(tier).iter().map(|c| c.name()).collect::<Vec<_>>(), "solver_seeds": solver_seeds,
         "oracle": "reference unrolling decided by z3 5.1 for every depth up to 2^bits - 1 (all executions of a finite system)"}));
     rep.extra.insert("functions_encoded".into(), json!(["mc::pdr", "mc::UnrollSmtEncoding", "mc::bmc (fall-back)", "SmtLibSolverCtx::get_unsat_assumptions / parse_get_unsat_assumptions_response"]));
